@@ -47,6 +47,16 @@ func c14Composite(w *World, prop string, relatedOnly bool) {
 				}, "spec", "related")
 			})
 		}
+		if cfg.Finalize && t.Pick(2, "holdfinal") == 1 {
+			// a finalize hook that keeps the children and does not finish: a parent that
+			// was relabelled out of the selector, or deleted, stays around with the
+			// finalizer, and everything that woke it before has to wake it still
+			s.TP.FinalizeHold = true
+			for _, p := range s.Parents {
+				EditObject(w, p.Res, p.NS, p.Name, "setup", func(o Object) { setPath(o, true, "spec", "template", "hold") })
+			}
+			w.Cfg["finalize"] = "never-finished"
+		}
 		failFor := "" // the parent for which customize calls made from event handlers fail at present
 		s.Progs["cc"].Raw = func(w *World, h *HookRec) *HookAnswer {
 			// (a pure function of the call and the scenario state: such calls are answered on
@@ -87,10 +97,23 @@ func c14Composite(w *World, prop string, relatedOnly bool) {
 						events = []string{"related-edit", "related-relabel-away", "related-delete", "related-edit-after-expiry", "related-edit-after-expiry-customize-fails-for-another"}
 					}
 					ev := events[w.T.Pick(len(events), "event")]
-					ex.name = ev
-					w.FaultsFired["event:"+ev]++
 					p := s.Parents[w.T.Pick(len(s.Parents), "which")]
 					po := p.Get(w)
+					if s.TP.FinalizeHold && !relatedOnly {
+						// a parent that lingers with the finalizer only (relabelled away or being
+						// deleted): half of the time the next event is about one of its children
+						for _, q := range s.Parents {
+							qo := q.Get(w)
+							if qo != nil && hasFinalizer(qo, cfg.FinalizerName()) && (!selectorMatches(cfg.LabelSelector, labelsOf(qo)) || metaRO(qo)["deletionTimestamp"] != nil) && w.T.Pick(2, "lingering") == 1 {
+								p, po = q, qo
+								ev = []string{"child-edit", "child-delete", "child-status"}[w.T.Pick(3, "lingerev")]
+								w.Probe("c14:child-event-of-a-parent-kept-by-its-finalizer")
+								break
+							}
+						}
+					}
+					ex.name = ev
+					w.FaultsFired["event:"+ev]++
 					k0 := cfg.Children[0].Res
 					others := func() {
 						for _, q := range s.Parents {
